@@ -8,6 +8,7 @@ import (
 	"runtime"
 	"runtime/debug"
 	"strconv"
+	"strings"
 	"sync"
 	"sync/atomic"
 )
@@ -38,6 +39,7 @@ type Blocker interface {
 }
 
 type thread struct {
+	where string
 	wake  chan bool
 	obj   any
 	label string
@@ -54,6 +56,7 @@ type PointRec struct {
 	From           int    // thread that reached the point (-1 initial)
 	Chosen         int    // index into Enabled
 	FromStillReady bool   // switching away costs a preemption
+	Where          string // caller of the hooked op (only with TraceCallers)
 }
 
 // Result of one execution.
@@ -99,6 +102,35 @@ func goid() int64 {
 	return id
 }
 
+// TraceCallers makes every point record the repository call site that reached it (replay/debugging only).
+var TraceCallers bool
+
+func callerOutsideVerif() string {
+	pc := make([]uintptr, 24)
+	n := runtime.Callers(3, pc)
+	fr := runtime.CallersFrames(pc[:n])
+	out := ""
+	cnt := 0
+	for {
+		f, more := fr.Next()
+		if !strings.Contains(f.Function, "/pkg/verif/") && !strings.HasPrefix(f.Function, "runtime.") {
+			fn := f.Function
+			if i := strings.LastIndex(fn, "/"); i >= 0 {
+				fn = fn[i+1:]
+			}
+			out += fmt.Sprintf("%s:%d ", fn, f.Line)
+			cnt++
+			if cnt == 3 {
+				break
+			}
+		}
+		if !more {
+			break
+		}
+	}
+	return out
+}
+
 // CheckGoid enables the "hooked op reached from an unmanaged goroutine" assertion.
 var CheckGoid = true
 
@@ -131,6 +163,9 @@ func Point(k Kind, obj any, label string) {
 		return
 	}
 	t.kind, t.obj, t.label = k, obj, label
+	if TraceCallers {
+		t.where = label + " @ " + callerOutsideVerif()
+	}
 	e.schedule(t)
 }
 
@@ -287,7 +322,14 @@ func (e *Exec) schedule(from *thread) {
 	if fromReady && choice != 0 {
 		e.res.Preempts++
 	}
-	e.res.Points = append(e.res.Points, PointRec{From: fid, Enabled: en, Chosen: choice, FromStillReady: fromReady, Sig: sig})
+	wh := ""
+	if from != nil {
+		wh = from.where
+		if from.done {
+			wh = "exit"
+		}
+	}
+	e.res.Points = append(e.res.Points, PointRec{From: fid, Enabled: en, Chosen: choice, FromStillReady: fromReady, Sig: sig, Where: wh})
 	e.res.Choices = append(e.res.Choices, choice)
 	next := e.threads[en[choice]]
 	if next == from {
